@@ -1,6 +1,7 @@
 import Exetera.Lemmas.JournalTable
 import Exetera.Lemmas.JournalSort
 import Exetera.Lemmas.JournalIndicesSafe
+import Exetera.Lemmas.JournalHistory
 /-!
 # C17 — snapshot journalling keeps all history and appends only changed/new records
 
@@ -131,5 +132,14 @@ example : planPhys [2, 1, 1] [1, 2, 1] [3, 1] (differsAny [.num [20, 12, 11] [30
 theorem history_rows {ids vf : List Int} (hvf : vf.length = ids.length) {k : Int} {r : Nat} :
     r ∈ history ids vf k ↔ ids[r]? = some k :=
   mem_history hvf
+
+/-- what `history` means, without reference to a sorting algorithm: the rows of the key, with their `valid_from` attached, strictly
+    ascending in (valid_from, physical row) — so the last one is the latest version, ties broken by the later physical row -/
+theorem history_order (okeys ovf : List Int) (k : Int) :
+    ∃ L : List (Int × Nat), history okeys ovf k = L.map (·.2) ∧ L.Pairwise TimeRowLt ∧
+      ∀ p, p ∈ L → ovf[p.2]? = some p.1 ∧ okeys[p.2]? = some k :=
+  history_time_row_order okeys ovf k
+
+example : history [2, 1, 1, 1] [1, 5, 1, 5] 1 = [2, 1, 3] := by rfl
 
 end Exetera.Props.C17
